@@ -129,7 +129,7 @@ assign_element = Unit(
               rules=[(r'DEL_STRING\(_s\);', 'g_other++;', 1), (r'DEL_ARRAY\(_a\);', 'Array_dtor(self);', 1), (r'DEL_DIC\(_o\);', 'g_other++;', 1)]),
           Cut('asg', VC, r'^void Var::operator=\(const Var& v\)\s*$', members=('_type',), methods={'free': 'Var_free', 'isPod': 'Var_isPod'},
               rules=[(r'\bVar tmp\(v\);', 'VarE tmp; Var_copy_scalar(&tmp, v_p);', None), (r'this == &v', 'self == v_p', None), (r'&v\b', 'v_p', None), (r'sizeof\(v\)', 'sizeof(VarE)', None), (r'sizeof\(Var\)', 'sizeof(VarE)', None),
-                     (r'\bv\._type\b', 'v_p->_type', None),
+                     (r'\bv\._type\b', 'v_p->_type', None), (r'\bv\.isPod\(\)', 'Var_isPod(v_p)', None),
                      (r'_s->resize\(v\._s->length\(\)\);\s*memcpy\(_s->data\(\), v\._s->data\(\), v\._s->length\(\)\);', 'g_other++;', None),
                      (r'\(\*_a\) = \(\*v\._a\);', 'g_other++;', None), (r'\(\*_o\) = \(\*v\._o\);', 'g_other++;', None),
                      (r'NEW_STRINGC\(_s, v\._s->length\(\)\);\s*memcpy\(_s->data\(\), v\._s->data\(\), v\._s->length\(\)\);', 'g_other++;', None),
